@@ -50,7 +50,7 @@ def make_msg(lifespan, code, verb, age_us, payload=None):
                       _fraction_expired=None)
 
 
-@harness("C14", cases=[(s,) for s in LIFESPANS])
+@harness(("C14", "C13"), cases=[(s,) for s in LIFESPANS])
 def expiry_thresholds(secs):
     """For a message whose kind has lifetime L: never expired before L has passed, always once
     2L + 3 s has passed; exactly: expired <=> age >= 2L + 3 s.  Expiry never un-happens."""
@@ -80,7 +80,7 @@ def expiry_of_requests_and_unexpirable(verb):
     check(o.ok and o.value is False, "a message with no lifespan never expires")
 
 
-@harness("C14", cases=[(v,) for v in (" I", "RP", " W")])
+@harness(("C14", "C13"), cases=[(v,) for v in (" I", "RP", " W")])
 def expiry_of_sync_cycle(verb):
     """1F09: the lifetime is the countdown carried in the payload (0 .. 6553.5 s)."""
     k = sym_int("tenths", 0, 65535)
